@@ -1,5 +1,6 @@
 import ErdosVerif.Lemmas.SimResidentInit
 import ErdosVerif.Lemmas.SimLedgerRunFrame
+import ErdosVerif.Lemmas.SimLedgerRunPool
 /-!
 The ledger / residency invariant `LI` (every worker satisfies `Worker.TOK`: held iff resident,
 with amounts) over whole runs of the simulator model: Hoare triples for the handlers that write
@@ -366,15 +367,15 @@ theorem loop_head_ledger (s0 : SimS) (k : Nat) (h : Good s0) :
 empty ledger, nothing placed, no batch placeholder. -/
 def workerFresh (w : Worker) : Bool :=
   w.res.allocs.isEmpty && decide (w.res.avail = w.res.total) && decide ((AList.keys w.res.total).Nodup) &&
-  w.placed.isEmpty && w.batchTask.isEmpty
+  w.placed.isEmpty && w.batchTask.isEmpty && w.batches.isEmpty
 
 /-- **Well-formed initial state for the ledger theorems** (decidable): `wf0` and every worker fresh. -/
 def lwf0 (s : SimS) : Bool := wf0 s && s.pools.all (fun p => p.workers.all workerFresh)
 
-theorem tok_of_fresh (w : Worker) (h : workerFresh w = true) : w.TOK := by
+theorem lok_of_fresh (w : Worker) (h : workerFresh w = true) : w.LOK := by
   simp only [workerFresh, Bool.and_eq_true, List.isEmpty_iff, decide_eq_true_eq] at h
-  obtain ⟨⟨⟨⟨ha, hav⟩, hnd⟩, hp⟩, hbt⟩ := h
-  refine ⟨⟨by rw [hav], hnd, ?_, ?_⟩, ?_, ?_, ?_, ?_, ?_, ?_⟩
+  obtain ⟨⟨⟨⟨⟨ha, hav⟩, hnd⟩, hp⟩, hbt⟩, hb⟩ := h
+  refine ⟨⟨⟨by rw [hav], hnd, ?_, ?_⟩, ?_, ?_, ?_, ?_, ?_, ?_⟩, ⟨?_, ?_, ?_, ?_, ?_, ?_, ?_, ?_⟩⟩
   · intro x; rw [ha, hav]; simp
   · intro c l hm; rw [ha] at hm; cases hm
   · rw [ha]; exact List.nodup_nil
@@ -383,6 +384,14 @@ theorem tok_of_fresh (w : Worker) (h : workerFresh w = true) : w.TOK := by
   · intro t l hl; rw [ha] at hl; simp [AList.get?] at hl
   · intro sid c hc; rw [hbt] at hc; cases hc
   · intro p l hl; rw [ha] at hl; simp [AList.get?] at hl
+  · rw [hb]; exact List.nodup_nil
+  · rw [hbt]; exact List.nodup_nil
+  · intro t s hs; rw [hp] at hs; simp [AList.get?] at hs
+  · intro sid ms hms; rw [hb] at hms; simp [AList.get?] at hms
+  · intro sid ms hms; rw [hb] at hms; simp [AList.get?] at hms
+  · intro g l hl; rw [ha] at hl; simp [AList.get?] at hl
+  · intro sid sid' c h1; rw [hbt] at h1; simp [AList.get?] at h1
+  · intro sid g h1; rw [hbt] at h1; simp [AList.get?] at h1
 
 /-- **A well-formed initial state satisfies both invariants.** -/
 theorem good_initial (s : SimS) (h : lwf0 s = true) : Good s := by
@@ -394,6 +403,6 @@ theorem good_initial (s : SimS) (h : lwf0 s = true) : Good s := by
   obtain ⟨i, hi, rfl⟩ := Array.getElem_of_mem (Array.mem_toList_iff.mp hp)
   have h3 := h2 i hi
   rw [List.all_eq_true] at h3
-  exact tok_of_fresh w (h3 w hw)
+  exact lok_of_fresh w (h3 w hw)
 
 end ErdosVerif.Model.Sim
